@@ -24,6 +24,8 @@ class _Store:
 
 
 class SymDict:
+    autoviv = False     # defaultdict of inner mappings: see vc_getitem
+
     def __init__(self, levels, vtype, store=None, prefix=(), name='d', default=None):
         self.levels = [tuple(l) for l in levels]
         self.vtype = vtype
@@ -87,12 +89,32 @@ class SymDict:
         idx = self.prefix + key
         if self.default is not None and self.depth == len(self.levels) - 1:
             return Sym(z3.If(self.present_at(key), z3.Select(self.store.value, *idx), zterm(self.default, self.vtype)), self.vtype)
+        if self.autoviv and self.depth < len(self.levels) - 1:
+            # collections.defaultdict(<inner mapping>): reading a missing key inserts an empty inner mapping
+            if not eng.pure:
+                was = self.present_at(key)
+                d = self.depth
+                self.store.present[d] = z3.Store(self.store.present[d], *(idx + (z3.BoolVal(True),)))
+                dom = []
+                for i, lv in enumerate(self.levels):
+                    dom += [_SORT[t]() for t in lv]
+                    if i <= d:
+                        continue
+                    vars_ = [z3.Const('v!%d_%d' % (i, j), srt) for j, srt in enumerate(dom)]
+                    same = z3.And(*[vars_[j] == idx[j] for j in range(len(idx))])
+                    old = z3.Select(self.store.present[i], *vars_)
+                    self.store.present[i] = z3.Lambda(vars_, z3.If(z3.And(same, z3.Not(was)), z3.BoolVal(False), old))
+            v = SymDict(self.levels, self.vtype, self.store, idx, self.name, self.default)
+            v.autoviv = True
+            return v
         if not eng.pure:
             if not eng.branch(self.present_at(key)):
                 raise PyRaise('KeyError', node=node)
         if self.depth == len(self.levels) - 1:
             return Sym(z3.Select(self.store.value, *idx), self.vtype)
-        return SymDict(self.levels, self.vtype, self.store, idx, self.name, self.default)
+        v = SymDict(self.levels, self.vtype, self.store, idx, self.name, self.default)
+        v.autoviv = self.autoviv
+        return v
 
     def vc_setitem(self, eng, k, v, node=None):
         key = self._key(k)
@@ -133,14 +155,18 @@ class SymDict:
         raise Unsupported('SymDict.%s' % attr)
 
     def vc_havoc(self, eng, name):
-        return SymDict(self.levels, self.vtype, name=name, default=self.default)
+        d = SymDict(self.levels, self.vtype, name=name, default=self.default)
+        d.autoviv = self.autoviv
+        return d
 
     def vc_havoc_inplace(self, eng, name):
         self.store = SymDict(self.levels, self.vtype, name=name).store
 
     def vc_snapshot(self):
-        return SymDict(self.levels, self.vtype, _Store(self.store.present, self.store.value), self.prefix, self.name,
-                       self.default)
+        d = SymDict(self.levels, self.vtype, _Store(self.store.present, self.store.value), self.prefix, self.name,
+                    self.default)
+        d.autoviv = self.autoviv
+        return d
 
     # ---- spec access
     def lookup_default(self, keys, default):
